@@ -279,6 +279,50 @@ def run(rep, repo, tier):
               "the output in the training phase: the rounding is "
               "deterministic (round to nearest is biased for inputs between "
               "two codes)", loc=loc, instance=cfg)
+    # R5 per half line: where the output varies with x, the training arm
+    # must still contain a draw once everything that is constant on that
+    # half line (relu / where / sign / comparisons with 0) is folded away
+    raises5 = any(a[0] == "sym" and str(a[1]).startswith("RAISES")
+                  for a in ft5.atoms())
+    if qref.has_rand(b.term) and not raises5:
+      fi5 = b.fwd("infer")
+      for rname, env in (("x>0", Env(x=VS.real(F(0), None), xsign=1)),
+                         ("x<0", Env(x=VS.real(None, F(0)), xsign=-1))):
+        ev5 = Eval(env)
+
+        def fold(g):
+          for _ in range(4):
+            mp = {}
+            for a in g.atoms():
+              if a[0] == "app" and a[1] in ("relu", "where", "sign", "abs",
+                                            "cmp", "maximum", "minimum",
+                                            "clip"):
+                if a[1] == "abs":
+                  continue
+                try:
+                  c = ev5.atom(a).const_value()
+                except Exception:   # pylint: disable=broad-except
+                  c = None
+                if c is not None:
+                  mp[a] = NF.const(c)
+            if not mp:
+              break
+            g = g.subst(mp, simplify_app)
+          return g
+        try:
+          gi, gt = fold(fi5), fold(ft5)
+        except Exception:   # pylint: disable=broad-except
+          continue
+        varies = gi.depends_on(("x",)) if hasattr(gi, "depends_on") else True
+        if not varies:
+          continue
+        draws = any(a[0] == "app" and a[1] == "rand" for a in gt.atoms())
+        rep.check(draws, "R5", unit,
+                  "stochastic-option-without-random-draw:" + rname,
+                  "on %s the training output does not depend on any random "
+                  "draw although stochastic rounding is requested and the "
+                  "output varies with x there" % rname, loc=loc,
+                  instance=cfg)
     # R2 inference arm == deterministic configuration
     dcls, dkw = det_config(cls, kw)
     try:
